@@ -8,6 +8,7 @@ import (
 	"net/http"
 	"os"
 	"path/filepath"
+	"runtime"
 	"strings"
 	"sync"
 	"sync/atomic"
@@ -179,25 +180,29 @@ func runHTTP(sc scen) (observation, []problem) {
 	if sc.Handlers {
 		cl.RegisterNotificationHandler("notifications/message", func(n *mcp.JSONRPCNotification) error { return nil })
 	}
-	ctx, cancel := context.Background(), context.CancelFunc(func() {})
+	ctx, cancel := context.WithCancel(context.Background()) // "none": never cancelled before the census (only to unblock a broken tree)
 	var deadline time.Time
 	switch sc.Ctx {
-	case "cancel":
-		ctx, cancel = context.WithCancel(context.Background())
 	case "deadline":
 		deadline = time.Now().Add(300 * time.Millisecond)
 		ctx, cancel = context.WithDeadline(context.Background(), deadline)
 	}
 	defer cancel()
 	results := make(chan callRes, sc.N)
+	var issuedNonces []string
+	if sc.Where == "accept" {
+		p.arm(sc.Fault) // no request is ever read: the connections end at accept
+	}
+	issuedAt := time.Now()
 	for i := 0; i < sc.N; i++ {
 		nonce := fmt.Sprintf("n%07d", nonceCtr.Add(1))
+		issuedNonces = append(issuedNonces, nonce)
 		go func() { results <- callTool(ctx, cl.CallTool, nonce) }()
 	}
 	// barrier: all N requests are at the peer
 	var arr []*arrival
 	barrier := time.After(5 * time.Second)
-	for len(arr) < sc.N {
+	for len(arr) < sc.N && sc.Where != "accept" {
 		select {
 		case a := <-p.arrivals:
 			arr = append(arr, a)
@@ -211,6 +216,9 @@ func runHTTP(sc scen) (observation, []problem) {
 	order := make([]string, len(arr))
 	for i, a := range arr {
 		order[i] = a.nonce
+	}
+	if sc.Where == "accept" {
+		order = issuedNonces
 	}
 	// the script
 	res := map[string]callRes{}
@@ -256,6 +264,9 @@ func runHTTP(sc scen) (observation, []problem) {
 		}
 	}
 	var t0 time.Time
+	if sc.Where == "accept" {
+		t0 = issuedAt
+	}
 	if sc.Answered < len(arr) {
 		a := arr[sc.Answered]
 		switch {
@@ -337,6 +348,10 @@ collect:
 					hung[n] = true
 				}
 			}
+			if os.Getenv("VERIF_CALLS_DEBUG") != "" {
+				buf := make([]byte, 1<<20)
+				os.Stderr.Write(buf[:runtime.Stack(buf, true)])
+			}
 			break collect
 		}
 	}
@@ -349,12 +364,22 @@ collect:
 			probs = append(probs, problem{fp: "calls:" + sc.transportTag() + ":pending_not_empty", what: "all calls have returned but the pending table is not empty", observed: obs.Pending})
 		}
 	}
+	// (a broken tree only) calls that hang are given their context's end first, so that Close() does not race with them
+	if len(hung) > 0 {
+		cancel()
+		unblock := time.After(time.Second)
+	drainHung:
+		for len(res) < sc.N {
+			select {
+			case r := <-results:
+				res[r.nonce] = r
+			case <-unblock:
+				break drainHung
+			}
+		}
+	}
 	// Close, then everything the peer holds goes away, then the census
 	cl.Close()
-	cancelLater := len(hung) > 0
-	if cancelLater {
-		cancel()
-	}
 	tr.CloseIdleConnections()
 	p.shutdown()
 	after := settle(base, settleCeiling)
@@ -374,7 +399,11 @@ collect:
 		probs = append(probs, problem{fp: "calls:" + sc.transportTag() + ":goroutines_after_close", what: "library goroutines are still there after Close (all calls returned, peer gone)", observed: libKeys(left)})
 	}
 	if obs.Ledger.Bodies > 0 {
-		probs = append(probs, problem{fp: "calls:" + sc.transportTag() + ":connection_not_released", what: "client connections are still checked out after Close: a response body was neither closed nor read to its end",
+		mode := map[string]string{"streamSse": "after_sse_answer", "streamJson": "after_json_answer", "sse": "after_post"}[sc.T]
+		if sc.Fault == "http500" {
+			mode = "after_http_error_status"
+		}
+		probs = append(probs, problem{fp: "calls:" + sc.transportTag() + ":connection_not_released_" + mode, what: "client connections are still checked out after Close: a response body was neither closed nor read to its end",
 			observed: map[string]any{"persistConn_readLoops": obs.Ledger.Bodies, "parked_waiting_for_body": parked, "fds_before": base.FDs, "fds_after": after.FDs}})
 	} else if after.FDs > base.FDs {
 		probs = append(probs, problem{fp: "calls:" + sc.transportTag() + ":fds_after_close", what: "more open file descriptors after Close than before the client was made", observed: map[string]any{"before": base.FDs, "after": after.FDs}})
@@ -463,6 +492,9 @@ func runStdio(sc scen, dir string) (observation, []problem) {
 	if sc.Pos != "none" {
 		cs.Off = sc.Off
 	}
+	if sc.Where == "afterInit" {
+		cs.Need = 0
+	}
 	b, _ := json.Marshal(cs)
 	timeout := 20 * time.Second
 	if sc.Ctx == "timeout" {
@@ -485,16 +517,32 @@ func runStdio(sc scen, dir string) (observation, []problem) {
 		go cl.Close()
 		return observation{}, []problem{{fp: "calls:harness:init_failed", what: "handshake with the child failed: " + err.Error()}}
 	}
-	ctx, cancel := context.Background(), context.CancelFunc(func() {})
+	ctx, cancel := context.WithCancel(context.Background()) // "none": never cancelled before the census (only to unblock a broken tree)
 	var deadline time.Time
 	switch sc.Ctx {
-	case "cancel":
-		ctx, cancel = context.WithCancel(context.Background())
 	case "deadline":
 		deadline = time.Now().Add(300 * time.Millisecond)
 		ctx, cancel = context.WithDeadline(context.Background(), deadline)
 	}
 	defer cancel()
+	if sc.Where == "afterInit" {
+		// the child leaves right after the handshake; the calls are issued once it is gone
+		gone := time.After(5 * time.Second)
+	waitExit:
+		for {
+			select {
+			case l := <-q.ch:
+				if strings.HasPrefix(l, "ready ") {
+					break waitExit
+				}
+			case <-gone:
+				break waitExit
+			}
+		}
+		for dl := time.Now().Add(settleCeiling); time.Now().Before(dl) && childState(pid) != "" && childState(pid) != "Z"; {
+			time.Sleep(200 * time.Microsecond)
+		}
+	}
 	results := make(chan callRes, sc.N)
 	var nonces []string
 	issued := time.Now()
@@ -507,7 +555,10 @@ func runStdio(sc scen, dir string) (observation, []problem) {
 	// "ready", fault) when the parent says so: after the answered calls have returned
 	var t0 time.Time
 	res := map[string]callRes{}
-	if sc.Fault != "none" {
+	if sc.Where == "afterInit" {
+		t0 = issued
+	}
+	if sc.Fault != "none" && sc.Where != "afterInit" {
 		ready := false
 		barrier := time.After(5 * time.Second)
 		for !ready {
@@ -612,10 +663,21 @@ collect:
 	} else if !sc.CloseLive {
 		waitGone(base, "processWatcher")
 	}
-	cl.Close()
 	if len(hung) > 0 {
+		// (a broken tree only) calls that hang are given their context's end first, so that Close() does not race with them
 		cancel()
+		unblock := time.After(time.Second)
+	drainHung:
+		for len(res) < sc.N {
+			select {
+			case r := <-results:
+				res[r.nonce] = r
+			case <-unblock:
+				break drainHung
+			}
+		}
 	}
+	cl.Close()
 	after := settle(base, settleCeiling)
 	left := after.diffLib(base)
 	for k, v := range left {
